@@ -8,7 +8,7 @@ from typing import Any, Dict, List, Optional, Set, Tuple
 from .. import linexpr as lx
 from ..core import AnalysisError, Report
 from ..linexpr import Env, py_ir, to_lin
-from ..pyfacts import Repo, cc, cn, inline_module_constants, expand_private_calls, normalize_counting_whiles, inline_block, inline_predicates, canon_cond, push_not, calls, dotted, fold, norm, raise_guards, raised_class, walk_no_nested
+from ..pyfacts import Repo, cc, cn, eval_int_expr, membership_searches, normalize_indexed_loops, inline_module_constants, expand_private_calls, normalize_counting_whiles, inline_block, inline_predicates, canon_cond, push_not, calls, dotted, fold, norm, raise_guards, raised_class, walk_no_nested
 
 W = 'flipjump/fjm/fjm_writer.py'
 R = 'flipjump/fjm/fjm_reader.py'
@@ -68,6 +68,23 @@ def classify_guard(test: ast.expr) -> Set[str]:
 def _reader_init_memory(repo: Repo) -> ast.FunctionDef:
     """Reader._init_memory with its private helper methods expanded in place and counting `while` loops read as `for`."""
     return normalize_counting_whiles(expand_private_calls(repo, R, repo.func(R, 'Reader._init_memory'), 'Reader'))       # type: ignore[return-value]
+
+
+def reljump_writer(repo: Repo) -> str:
+    """the Writer method that rewrites the data pool in place (the relative-jump transform): the private method called from
+    add_segment that stores into self.data[...] - found by what it does, so a rename changes nothing."""
+    add = repo.func(W, 'Writer.add_segment')
+    cands = []
+    for c in calls(add):
+        d = dotted(c.func)
+        if d.startswith('self._') and repo.has_func(W, f'Writer.{d.split(".")[1]}'):
+            f = repo.func(W, f'Writer.{d.split(".")[1]}')
+            if any(isinstance(n, (ast.Assign, ast.AugAssign)) and isinstance((n.targets[0] if isinstance(n, ast.Assign) else n.target), ast.Subscript)
+                   and norm((n.targets[0] if isinstance(n, ast.Assign) else n.target).value) == 'self.data' for n in ast.walk(f)):
+                cands.append(f'Writer.{d.split(".")[1]}')
+    if len(set(cands)) != 1:
+        raise AnalysisError(f'Writer.add_segment: expected one in-place rewriter of self.data among its private callees, found {sorted(set(cands))}')
+    return cands[0]
 
 
 def rule_formats(rep: Report, repo: Repo) -> None:
@@ -171,7 +188,7 @@ def rule_version_gates(rep: Report, repo: Repo) -> None:
 def rule_reljump(rep: Report, repo: Repo) -> None:
     rep.rule('C06.RELJUMP-INVERSE', 'the relative-jump encode and decode are syntactic inverses modulo 2^w: same index set '
              '(odd k below the even data length), same offset (segment_start + k) * w with opposite signs, same mask', 5)
-    wf = normalize_counting_whiles(repo.func(W, 'Writer._update_to_relative_jumps'))
+    wf = normalize_counting_whiles(repo.func(W, reljump_writer(repo)))
     loop = [n for n in ast.walk(wf) if isinstance(n, ast.For)][0]
     wr = norm(loop.iter)
     wbody = inline_block(loop.body)              # named temporaries of the loop body are substituted
@@ -238,12 +255,31 @@ def rule_zerofill(rep: Report, repo: Repo) -> None:
     outer = [norm(n.test) for n in ast.walk(im) if isinstance(n, ast.If) and 'segment_length' in norm(n.test)]
     rep.check('segment_length > data_length' in outer and 'segment_length - data_length < _reserved_dict_threshold' in outer,
               'C06.ZEROFILL', 'branch-tests', str(outer), site)
-    plain = [n for n in ast.walk(im) if isinstance(n, ast.For) and norm(n.iter) == 'range(data_length)']
-    rep.check(bool(plain) and norm(plain[0].body[0]) == 'self.memory[segment_start + i] = data[data_start + i]', 'C06.ZEROFILL',
-              'plain-copy', norm(plain[0]).split('\n')[0] if plain else 'missing', site)
+    # the plain copy, in the indexing or the enumerate-over-a-slice spelling: folded on a grid, word k of the segment's data goes
+    # to address segment_start + k, for k in [0, data_length)
+    imn = normalize_indexed_loops(im)
+    plain_ok, plain_txt = False, 'missing'
+    for n in ast.walk(imn):
+        if not (isinstance(n, ast.For) and isinstance(n.target, ast.Name) and isinstance(n.iter, ast.Call) and dotted(n.iter.func) == 'range'
+                and len(n.body) == 1 and isinstance(n.body[0], ast.Assign) and isinstance(n.body[0].targets[0], ast.Subscript)
+                and norm(n.body[0].targets[0].value) == 'self.memory' and isinstance(n.body[0].value, ast.Subscript)
+                and norm(n.body[0].value.value) == 'data'):
+            continue
+        plain_txt = norm(n).replace('\n', ' ')[:120]
+        good = True
+        for ss, ds, dl in ((0, 0, 4), (10, 6, 2), (3, 8, 5)):
+            env = {'segment_start': ss, 'data_start': ds, 'data_length': dl}
+            ks = list(range(*[eval_int_expr(a, env) for a in n.iter.args]))
+            pairs = [(eval_int_expr(n.body[0].targets[0].slice, {**env, n.target.id: k}), eval_int_expr(n.body[0].value.slice, {**env, n.target.id: k})) for k in ks]
+            good = good and pairs == [(ss + k, ds + k) for k in range(dl)]
+        plain_ok = plain_ok or good
+    rep.check(plain_ok, 'C06.ZEROFILL', 'plain-copy', plain_txt, site, expected='memory[segment_start + k] = data[data_start + k] for k < data_length')
     gm = repo.func(R, 'Reader._get_memory_word')
-    loops = [n for n in ast.walk(gm) if isinstance(n, ast.For) and norm(n.iter) == 'self.zeros_boundaries']
-    ok = bool(loops) and norm(loops[0].body[0].test) == 'start <= word_address < end'      # type: ignore[attr-defined]
+    searches = membership_searches(gm, 'self.zeros_boundaries')
+    ok = len(searches) == 1 and len(searches[0][3]) == 2 and cn(searches[0][0]) == cc(f'{searches[0][3][0]} <= word_address < {searches[0][3][1]}')
+    class _L:        # the old name, kept for the message below
+        lineno = searches[0][2] if searches else 0
+    loops = [_L]
     # ... and it comes before the garbage handling
     first_garbage = min([n.lineno for n in ast.walk(gm) if isinstance(n, ast.Call) and dotted(n.func) == '_new_garbage_val'] or [0])
     rep.check(ok and loops[0].lineno < first_garbage, 'C06.ZEROFILL', '_get_memory_word:lazy-lookup',
@@ -316,7 +352,7 @@ def writer_validated(repo: Repo) -> Tuple[Set[str], Dict[str, str]]:
     """constraints the writer enforces with FlipJumpWriteFjmException (where)."""
     got: Set[str] = set()
     where: Dict[str, str] = {}
-    for fn in ('Writer.add_segment', 'Writer.add_data', 'Writer.write_to_file', 'Writer._update_to_relative_jumps'):
+    for fn in ('Writer.add_segment', 'Writer.add_data', 'Writer.write_to_file', reljump_writer(repo)):
         if not repo.has_func(W, fn):
             continue
         f = repo.func(W, fn)
@@ -379,7 +415,7 @@ def rule_writer_validates(rep: Report, repo: Repo) -> None:
     # validation precedes mutation in add_segment
     add = repo.func(W, 'Writer.add_segment')
     first_mut = min([n.lineno for n in ast.walk(add) if isinstance(n, ast.Call) and dotted(n.func) in
-                     ('self._update_to_relative_jumps', 'self.segments.append')] or [0])
+                     ('self.' + reljump_writer(repo).split('.')[1], 'self.segments.append')] or [0])
     last_val = max([t.lineno for t, r, _ in raise_guards(add)] + [n.lineno for n in ast.walk(add) if isinstance(n, ast.Call)
                    and dotted(n.func).startswith('self._validate')] or [0])
     rep.check(0 < last_val < first_mut, 'C06.WRITER-VALIDATES', 'Writer.add_segment:validate-before-mutate',
